@@ -4,6 +4,8 @@ import (
 	"fmt"
 	"math/rand"
 	"os"
+	"strings"
+	"sync"
 	"time"
 
 	"verifharness/tr"
@@ -93,17 +95,103 @@ func scenariosC04(rng *rand.Rand, thorough bool) []Scenario {
 	// false checkpoint, true filter headers: the client can tell nobody apart and never gets past it
 	add(Scenario{Name: "liarCFCheckpt-only", Len: 1000 + L(), Barrier: true, Deadline: 4 * time.Second, Script: []Event{sleep(300)},
 		Peers: []Behaviour{honest(), {Kind: "liarCFCheckpt", H: 0, Variant: "only"}}})
-	if os.Getenv("NETSIM_SLOW") != "" {
-		add(Scenario{Name: "silent-first", Len: L(), Deadline: 130 * time.Second, Script: []Event{sleep(500), grow(1)},
-			Peers: []Behaviour{{Kind: "silent"}, honest()}})
-		add(Scenario{Name: "emptyHeaders-first", Len: L(), Deadline: 130 * time.Second, Script: []Event{sleep(500), grow(1)},
-			Peers: []Behaviour{{Kind: "emptyHeaders"}, honest()}})
-	}
 	return out
+}
+
+// rec collects the trace lines of one scenario so that scenarios can run side
+// by side (thorough tier) and still be written one case after the other.
+type rec struct {
+	header string
+	lines  []string
+	stats  map[string]int
+}
+
+func (r *rec) Op(op, obs string) { r.lines = append(r.lines, op+" => "+obs) }
+func (r *rec) Line(format string, a ...any) {
+	r.lines = append(r.lines, fmt.Sprintf(format, a...))
+}
+func (r *rec) Hit(k string)        { r.stats[k]++ }
+func (r *rec) Add(k string, n int) { r.stats[k] += n }
+
+func (r *rec) flush(t *tr.W) {
+	t.Case("%s", r.header)
+	for _, l := range r.lines {
+		if op, obs, ok := strings.Cut(l, " => "); ok && !strings.HasPrefix(l, "#") {
+			t.Op(op, obs)
+		} else {
+			t.Line("%s", l)
+		}
+	}
+	for k, v := range r.stats {
+		t.Stats[k] += v
+	}
+}
+
+// randomMix: 3-5 peers with random behaviours (at least one honest), all
+// connected before the first header flows, and a random script.
+func randomMix(rng *rand.Rand, k int) Scenario {
+	l := 30 + rng.Intn(40)
+	n := 3 + rng.Intn(3)
+	peers := make([]Behaviour, n)
+	hon := rng.Intn(n)
+	for i := range peers {
+		if i == hon {
+			peers[i] = honest()
+			continue
+		}
+		switch rng.Intn(10) {
+		case 0:
+			peers[i] = honest()
+		case 1:
+			peers[i] = Behaviour{Kind: "liarHeaders", H: 2 + rng.Intn(l-2), Variant: "pow"}
+		case 2:
+			peers[i] = Behaviour{Kind: "liarHeaders", H: 2 + rng.Intn(l-2), Variant: "unlinked"}
+		case 3:
+			d := 3 + rng.Intn(5)
+			peers[i] = Behaviour{Kind: "lighterFork", H: d, N: d - 1 - rng.Intn(2)}
+		case 4:
+			peers[i] = Behaviour{Kind: "liarCFHeaders", H: 1 + rng.Intn(l+3), Variant: "inconsistent"}
+		case 5:
+			peers[i] = Behaviour{Kind: "noServices", Variant: []string{"cf", "witness"}[rng.Intn(2)]}
+		case 6:
+			peers[i] = Behaviour{Kind: "garbage"}
+		case 7:
+			peers[i] = Behaviour{Kind: "disconnectAt", H: 1 + rng.Intn(6)}
+		case 8:
+			peers[i] = Behaviour{Kind: "liarCFilter", H: 1 + rng.Intn(l)}
+		case 9:
+			// no silent peers in the mixes: once an earlier sync peer is dropped a silent peer
+			// (huge announced height) becomes the sync peer and only the 90-120 s stall
+			// timeout removes it - covered by silent-first / silent-second
+			peers[i] = Behaviour{Kind: "liarCFHeaders", H: 2 + rng.Intn(l-1), Variant: "consistent"}
+		}
+	}
+	script := []Event{{Kind: "waitsync"}}
+	for e, ne := 0, 2+rng.Intn(3); e < ne; e++ {
+		switch rng.Intn(5) {
+		case 0, 1:
+			script = append(script, Event{Kind: "grow", A: 1 + rng.Intn(3)})
+		case 2:
+			d := 1 + rng.Intn(3)
+			script = append(script, Event{Kind: "reorg", A: d, B: d + 1 + rng.Intn(2)})
+		case 3:
+			script = append(script, Event{Kind: "announce"}, Event{Kind: "sleep", A: 100})
+		case 4:
+			script = append(script, Event{Kind: "sleep", A: 50 + rng.Intn(300)})
+		}
+		if rng.Intn(2) == 0 {
+			script = append(script, Event{Kind: "waitsync"})
+		}
+	}
+	return Scenario{Name: fmt.Sprintf("mix-%d", k), Len: l, Peers: peers, Barrier: true, Script: script, Deadline: 15 * time.Second}
 }
 
 // DriveC04 runs the scenarios and writes one trace case per scenario.
 func DriveC04(t *tr.W, thorough bool) {
+	if thorough && os.Getenv("NETSIM_ONLY") == "" {
+		driveC04Thorough(t)
+		return
+	}
 	rng := tr.Rng(404)
 	scs := scenariosC04(rng, thorough)
 	if only := os.Getenv("NETSIM_ONLY"); only != "" {
@@ -116,18 +204,69 @@ func DriveC04(t *tr.W, thorough bool) {
 		scs = f
 	}
 	for _, sc := range scs {
-		RunScenario(t, sc, rng)
+		r := RunScenario(sc, rng.Int63())
+		r.flush(t)
 	}
 }
 
-// RunScenario runs one scenario as one trace case.
-func RunScenario(t *tr.W, sc Scenario, rng *rand.Rand) *Sim {
+// driveC04Thorough: the quick set under three parameter seeds, random mixes,
+// and the two scenarios that need the peer library's 90-120 s stall timeout;
+// four scenarios run side by side.
+func driveC04Thorough(t *tr.W) {
+	type job struct {
+		sc   Scenario
+		seed int64
+		out  *rec
+	}
+	var jobs []*job
+	slow := tr.Rng(4040)
+	L := 30 + slow.Intn(30)
+	jobs = append(jobs,
+		&job{sc: Scenario{Name: "silent-first", Len: L, Deadline: 135 * time.Second, Script: []Event{{Kind: "sleep", A: 500}, {Kind: "grow", A: 1}},
+			Peers: []Behaviour{{Kind: "silent"}, honest()}}, seed: slow.Int63()},
+		&job{sc: Scenario{Name: "emptyHeaders-first", Len: L, Deadline: 135 * time.Second, Script: []Event{{Kind: "sleep", A: 500}, {Kind: "grow", A: 1}},
+			Peers: []Behaviour{{Kind: "emptyHeaders"}, honest()}}, seed: slow.Int63()})
+	nmix := 8 * tr.EnvInt("VERIF_BUDGET", 1)
+	for sub := 0; sub < 3; sub++ {
+		rng := tr.Rng(int64(404 + 1000*sub))
+		for _, sc := range scenariosC04(rng, true) {
+			sc.Name = fmt.Sprintf("%s.%d", sc.Name, sub)
+			if sc.Deadline == 0 {
+				sc.Deadline = 15 * time.Second
+			}
+			jobs = append(jobs, &job{sc: sc, seed: rng.Int63()})
+		}
+		for k := 0; k < nmix; k++ {
+			jobs = append(jobs, &job{sc: randomMix(rng, sub*100+k), seed: rng.Int63()})
+		}
+	}
+	sem := make(chan struct{}, 4)
+	var wg sync.WaitGroup
+	for _, j := range jobs {
+		wg.Add(1)
+		sem <- struct{}{}
+		go func(j *job) {
+			defer wg.Done()
+			defer func() { <-sem }()
+			j.out = RunScenario(j.sc, j.seed)
+		}(j)
+	}
+	wg.Wait()
+	for _, j := range jobs {
+		j.out.flush(t)
+	}
+}
+
+// RunScenario runs one scenario and returns its trace case.
+func RunScenario(sc Scenario, seed int64) *rec {
+	t := &rec{stats: map[string]int{}}
+	rng := rand.New(rand.NewSource(seed))
 	t0 := time.Now()
-	t.Case("c04 %s len %d npeers %d", sc.Name, sc.Len, len(sc.Peers))
+	t.header = fmt.Sprintf("c04 %s len %d npeers %d", sc.Name, sc.Len, len(sc.Peers))
 	s, err := New(sc, rng, t.Op)
 	if err != nil {
 		t.Op("setup", "err "+err.Error())
-		return nil
+		return t
 	}
 	defer s.Cleanup()
 	for i, p := range s.Peers {
@@ -136,26 +275,26 @@ func RunScenario(t *tr.W, sc Scenario, rng *rand.Rand) *Sim {
 	}
 	if err := s.Start(); err != nil {
 		t.Op("start", "err "+err.Error())
-		return nil
+		return t
 	}
 	s.Run()
 	d := s.Stop()
 	if d < 0 {
 		t.Op("stop", "HANG")
-		fmt.Fprintf(os.Stderr, "netsim: Stop hung in scenario %s\n%s\n", sc.Name, Goroutines())
+		fmt.Fprintf(os.Stderr, "netsim: Stop hung in scenario %s\n%s\n", sc.Name, s.HangDump)
 	} else {
 		t.Op("stop", "ok")
 	}
 	t.Hit("scenarios")
-	t.Stats["samples"] += s.nsamp
+	t.Add("samples", s.nsamp)
 	for _, p := range s.Peers {
-		t.Stats["msgs.getheaders"] += int(p.GotGetHeaders)
-		t.Stats["msgs.getcfheaders"] += int(p.GotGetCFHeaders)
-		t.Stats["msgs.getcfcheckpt"] += int(p.GotGetCFCheckpt)
-		t.Stats["msgs.getcfilters"] += int(p.GotGetCFilters)
-		t.Stats["msgs.getdata"] += int(p.GotGetData)
-		t.Stats["sessions"] += int(p.Sessions)
+		t.Add("msgs.getheaders", int(p.GotGetHeaders))
+		t.Add("msgs.getcfheaders", int(p.GotGetCFHeaders))
+		t.Add("msgs.getcfcheckpt", int(p.GotGetCFCheckpt))
+		t.Add("msgs.getcfilters", int(p.GotGetCFilters))
+		t.Add("msgs.getdata", int(p.GotGetData))
+		t.Add("sessions", int(p.Sessions))
 	}
 	t.Line("# scenario %s took %d ms, stop %d ms, %d samples", sc.Name, time.Since(t0).Milliseconds(), d.Milliseconds(), s.nsamp)
-	return s
+	return t
 }
